@@ -162,11 +162,11 @@ def one_case(args):
 def run(tier: str, seed: int) -> Result:
     silence_labtech()
     if tier == 'quick':
-        inject_cases = ['pickle-small', 'json-small', 'pickle-multi', 'pickle-blob']
+        inject_cases = ['pickle-small', 'json-small', 'pickle-multi', 'pickle-blob', 'json2-multi']
         natural = ['pickle-unpicklable0', 'pickle-unpicklable1', 'pickle-unpicklable-deep', 'json-unserialisable']
         modes = ('raise',)
     else:
-        inject_cases = ['pickle-small', 'json-small', 'pickle-multi', 'pickle-blob', 'json-multi']
+        inject_cases = ['pickle-small', 'json-small', 'pickle-multi', 'pickle-blob', 'json-multi', 'json2-small', 'json2-multi', 'pickle-nonascii']
         natural = ['pickle-unpicklable0', 'pickle-unpicklable1', 'pickle-unpicklable-deep', 'json-unserialisable']
         modes = ('raise', 'partial')
     work = []
